@@ -202,13 +202,13 @@ def c08(tier):
 
 def c04(tier):
     vlib.standard(
-        "C04", tier, "c04", ["Properties_C04.v", "Proofs_Sched.v"],
+        "C04", tier, "c04", ["Properties_C04.v", "Proofs_Sched.v", "MutationSites.v"],
         assume=[
             "a worker's result is a function of the shared read-only inputs only, and a worker writes only its own checker context and result slot (the footprint abstraction; its truth for the real checkers is C05's subject)",
             "channel, WaitGroup and mutex operations are synchronisation primitives with their documented semantics",
             "STATED LIMIT: actual memory accesses of the compiled program are not modelled; a data race in code the footprints do not mention can only be exhibited by the race-detector runs, never excluded by the theorems",
         ],
-        trusted=["Go race detector builds of go-critic and go-critic-analysis; x/tools analysis driver's -debug=p sequential mode"])
+        trusted=["Go race detector builds of go-critic and go-critic-analysis; x/tools analysis driver's -debug=p sequential mode", "translator vh gen mutsites (go/ast+go/types over /repo/checkers, /repo/linter -> gen/MutationSites.v)"])
 
 
 def c09(tier):
